@@ -28,12 +28,28 @@ Variable ops : path -> list value -> list value -> list opcode.
 Variable c : cfg.
 Variable F : opts.
 
+(* An Enum member that is hashed as an OBJECT (no use_enum_value) goes through _prep_obj / _prep_dict, which hashes - through
+   the same run-wide table - the attribute names (str keys: when exclude_types contains str the key is skipped and the entry
+   with it) and, unless the item is of an excluded type (_skip_this is asked BEFORE _hash here), the items _value_, _name_,
+   _sort_order_.  So 1 (the value of G.P), 'P' and 0 (its sort order) become table entries, and a later lookup of the
+   ==-equal set member 1.0 / Decimal('1') / 0.0 hits them: it gets their text, and is hashed even when its type is excluded.
+   (The attribute-name strings '_value_', '_name_', '_sort_order_' are entries too; a set member spelling one of them has the
+   same text anyway.  __objclass__ is private: skipped.) *)
+Definition internals (a : atom) : list atom :=
+  match a with AEnum _ n o v => [atom_of_e v; AStr n; AInt (Z.of_nat o)] | _ => [] end.
+Definition stored_internals (a : atom) : list atom :=
+  if o_enum F || excluded F TStr then [] else filter (fun x => negb (excluded F (atom_ty x))) (internals a).
+(* _hash(item) of an internal: a table hit changes nothing, a miss stores the item's own text *)
+Definition minsert (m : memo) (x : atom) : memo :=
+  match mlook m x with Some _ => m | None => (x, hatomF F x) :: m end.
+
 (* DeepHash(item, hashes=self.hashes)[item]: None = skipped (not hashed) *)
 Definition mhash (m : memo) (a : atom) : option pystr * memo :=
   let k := unwrap F a in
   match mlook m k with
   | Some t => (Some t, m)
-  | None => if excl_hash F a then (None, m) else (Some (hatomF F a), (k, hatomF F a) :: m)
+  | None => if excl_hash F a then (None, m)
+            else (Some (hatomF F a), (k, hatomF F a) :: fold_left minsert (stored_internals a) m)
   end.
 (* _create_hashtable: the hashed members with their texts *)
 Fixpoint mhash_list (m : memo) (l : list atom) : list (atom * pystr) * memo :=
